@@ -10,6 +10,7 @@ import (
 	"os"
 	"os/exec"
 	"path/filepath"
+	"runtime/pprof"
 	"sort"
 	"strconv"
 	"strings"
@@ -130,6 +131,11 @@ func Main() {
 		os.Exit(doReplay(p, *replay))
 	}
 	if *worker >= 0 {
+		if pf := os.Getenv("HX_PROF"); pf != "" {
+			f, _ := os.Create(fmt.Sprintf("%s.%d", pf, *worker))
+			pprof.StartCPUProfile(f)
+			defer pprof.StopCPUProfile()
+		}
 		c := &Ctx{Prop: id, Tier: *tier, Shard: *worker, NShards: *nshards, Res: &Result{}, Seed: seed}
 		if *deadline > 0 {
 			c.Deadline = time.Unix(*deadline, 0)
